@@ -641,13 +641,14 @@ class CallGraph:
 
 class Guard:
     """A condition known to hold when control reaches a node."""
-    __slots__ = ("test", "polarity", "origin")
+    __slots__ = ("test", "polarity", "origin", "expanded")
 
     def __init__(self, test: ast.AST, polarity: bool, origin: str):
         while isinstance(test, ast.UnaryOp) and isinstance(test.op, ast.Not):
             test, polarity = test.operand, not polarity     # `not c` held <=> c did not
         self.test = test
         self.polarity = polarity   # True: test holds, False: not test holds
+        self.expanded = False      # a flag guard that was replaced by the condition the flag stands for
         self.origin = origin       # 'if', 'else', 'early-exit', 'ifexp', 'comp', 'boolop', 'while'
 
     def __repr__(self):
@@ -706,7 +707,62 @@ def guards_of(fi: FuncInfo, node: ast.AST, stop_at: Optional[ast.AST] = None) ->
                     out.append(Guard(prev, True, "comp"))
         _early_exits(par, cur, fld, out)
         cur = par
-    return out
+    return out + _flag_guards(fi, out)
+
+
+def _strip_bool(e):
+    while isinstance(e, ast.Call) and isinstance(e.func, ast.Name) and e.func.id == "bool" and len(e.args) == 1:
+        e = e.args[0]
+    return e
+
+
+def _flag_guards(fi: FuncInfo, guards: list) -> list:
+    """A guard on a local boolean flag stands for the condition the flag was computed from:
+    `flag = <E>` (possibly `flag = False` in an except handler) and `if not flag:` -> E does not hold
+    (or the handler ran); `if flag:` with no constant-True definition -> E holds."""
+    extra = []
+    for g in guards:
+        t = g.test
+        if not isinstance(t, ast.Name) or t.id in fi.params():
+            continue
+        defs = local_defs(fi, t.id)
+        if not defs or any(v is None for v, _ in defs):
+            continue
+        exprs, consts = [], []
+        for v, st in defs:
+            v = _strip_bool(v)
+            if isinstance(v, ast.Constant) and (isinstance(v.value, bool) or v.value is None):
+                consts.append((bool(v.value), st))
+            else:
+                exprs.append((v, st))
+        distinct = {unparse(v) for v, _ in exprs}
+        if len(distinct) != 1:
+            continue
+        E = exprs[0][0]
+        g.expanded = False
+        if g.polarity:
+            if not any(c for c, _ in consts):
+                extra.append(Guard(E, True, "flag"))
+                g.expanded = True
+        else:
+            ok = True
+            for c, st in consts:
+                if c:
+                    continue
+                inside_handler = any(isinstance(p, ast.ExceptHandler) for p in _ancestors(fi, st))
+                if not inside_handler:
+                    ok = False
+            if ok:
+                extra.append(Guard(E, False, "flag-or-exception" if consts else "flag"))
+                g.expanded = True
+    return extra
+
+
+def _ancestors(fi: FuncInfo, node):
+    cur = node
+    while cur in fi.parents:
+        cur = fi.parents[cur]
+        yield cur
 
 
 def _early_exits(par, cur, fld, out):
@@ -728,23 +784,23 @@ def _early_exits(par, cur, fld, out):
                 if isinstance(prev, (ast.If, ast.Try, ast.With)):
                     # nested, conditional early exits (return/raise leave the function from anywhere;
                     # continue/break leave the loop unless a nested loop intervenes)
-                    for st in _nested_exit_ifs(prev, top=True):
-                        out.append(Guard(st.test, False, "early-exit-nested"))
+                    for st in _nested_exit_ifs(prev):
+                        if not any(g.test is st.test for g in out):
+                            out.append(Guard(st.test, False, "early-exit-nested"))
 
 
-def _nested_exit_ifs(node, top=False):
+def _nested_exit_ifs(node):
+    """if-statements nested anywhere below `node` (not below loops or defs) whose body always leaves"""
     res = []
     for fld in ("body", "orelse", "finalbody"):
         for st in getattr(node, fld, []) or []:
             if isinstance(st, ast.If):
                 ex = body_exits(st.body)
-                if ex and not body_exits(st.orelse) and not top:
+                if ex and not body_exits(st.orelse):
                     res.append(st)
                 res.extend(_nested_exit_ifs(st))
             elif isinstance(st, (ast.Try, ast.With)):
                 res.extend(_nested_exit_ifs(st))
-    if isinstance(node, ast.Try):
-        pass
     return res
 
 
